@@ -6,7 +6,7 @@ import random
 
 HELPER_NAMES = ['State', 'Node', 'Action', 'RuleKind', 'Eof', 'Quasiterminal', 'QuasiterminalKind',
                 'NonterminalKind', 'S', 'Terminal', 'Shift', 'Reduce', 'Accept', 'ACTION_TABLE',
-                'GOTO_TABLE', 'Eof2', 'State2', 'S0', 'R0', 'Token', 'Item', 'T']
+                'GOTO_TABLE', 'Eof2', 'State2', 'S0', 'R0', 'Token', 'Item', 'T', 'Error', 'IntoIter', 'Output']
 PLAIN_NAMES = ['Expr', 'Term', 'Factor', 'Stmt', 'Block', 'List', 'Pair', 'Atom', 'Decl', 'Args',
                'Opt', 'Seq', 'Tail', 'Head', 'Unit', 'Wrap', 'Leaf', 'Inner', 'Outer', 'Value',
                'Aa', 'Bb', 'Cc', 'Dd', 'Ee', 'X1', 'Y2', 'Z_3', '_1A', 'Lorem', 'Ipsum']
@@ -715,6 +715,8 @@ CURATED = {
     'zero_terminals': 'start A\nstruct A\nterminal T {}\n',
     'all_underscore': 'start A\nstruct A { _: $X _: B }\nstruct B(_: $X)\nterminal T { $X: u32 }\n',
     'start_named_S': 'start S\nstruct S\nterminal T { $A: () }\n',
+    'variant_named_error': 'start Expr\nenum Expr { Error($Bad) Num($Num) }\nterminal T { $Bad: () $Num: () }\n',
+    'nonterminal_named_error': 'start Error\nstruct Error($Num)\nterminal T { $Num: () }\n',
     'eof_terminal': 'start A\nstruct A($Eof)\nterminal T { $Eof: () }\n',
     'eof_nonterminal': 'start Eof\nstruct Eof($A)\nterminal T { $A: () }\n',
     'wrong_namespace_nt': 'start A\nstruct A(Num)\nterminal Tok { $Num: () }\n',
